@@ -106,8 +106,12 @@ class Pages(Files):
                     filepath, stat_result, if_none_match, if_modified_since
                 )(scope, receive, send)
             if stat.S_ISDIR(stat_result.st_mode):
-                url = URL(scope=scope)
-                url = url.replace(scheme="", path=url.path + "/")
+                try:
+                    url = URL(scope=scope)
+                    url = url.replace(scheme="", path=url.path + "/")
+                except ValueError:
+                    # the Host header or query string cannot be put into a URL
+                    raise HTTPException(400) from None
                 return await RedirectResponse(url)(scope, receive, send)
 
         if self.handle_404 is None:
